@@ -111,8 +111,14 @@ UnfoldClauses(e) == LET x == UnfoldOf(e.call)  o == e.obs IN
 
 \* ---- C08 / C09 / C12(list part): list search
 LOf(c) == IF c.univ = "" THEN c.L ELSE UniverseSeq(c.univ)
-FindListClauses(e) == LET L == LOf(e.call)  x == FindList(L, e.call.search)  o == e.obs IN
-  << C("err", ~x.pre \/ o.err = (IF x.err = "spil" THEN "SpilException" ELSE "")),
+\* FindInList(L, do_extrapolate=True): the list and every proper prefix of every entry (a pure string operation)
+ExtrapolatedList(L) == L \o SetToSeq(UNION {{SubSeq(L[i], 1, n) : n \in 1..(Len(L[i]) - 1)} : i \in DOMAIN L} \ ToSet(L))
+FindListClauses(e) == LET L == LOf(e.call)  x == FindList(L, e.call.search)  o == e.obs
+                          xx == FindList(ExtrapolatedList(L), e.call.search) IN
+  << C("opt_extrapolate", ~xx.pre \/ (o.x_err = (IF xx.err = "spil" THEN "SpilException" ELSE "") /\
+                             (xx.err # "" \/ (ToSet(o.x_res) = xx.res /\ Cardinality(ToSet(o.x_res)) = Len(o.x_res))))),
+     C("opt_pre_sort", o.ps_err = o.err /\ ToSet(o.ps_res) = ToSet(o.res) /\ Cardinality(ToSet(o.ps_res)) = Len(o.ps_res)),
+     C("err", ~x.pre \/ o.err = (IF x.err = "spil" THEN "SpilException" ELSE "")),
      C("set", ~x.pre \/ x.err # "" \/ o.err # "" \/ ToSet(o.res) = x.res),
      C("nodup", Cardinality(ToSet(o.res)) = Len(o.res)),
      C("subset", ToSet(o.res) \subseteq ToSet(L)),
